@@ -19,6 +19,11 @@ def parseWOp (op : String) : Option SW.WOp :=
   | ["F", tok, decl, infoLen] =>
     some (.failed { tok := parseNat tok, decl := parseDecl decl, enc := fun _ => [], ulen := fun _ => 0,
                     infoBytes := fun _ => List.replicate (parseNat infoLen) 0 })
+  | ["S", tok, decl, len, ulen, infoLen, tok2, decl2, len2, ulen2, infoLen2] =>
+    some (.seg { tok := parseNat tok, decl := parseDecl decl, enc := fun _ => List.replicate (parseNat len) 0,
+                 ulen := fun _ => parseNat ulen, infoBytes := fun _ => List.replicate (parseNat infoLen) 0 }
+               { tok := parseNat tok2, decl := parseDecl decl2, enc := fun _ => List.replicate (parseNat len2) 0,
+                 ulen := fun _ => parseNat ulen2, infoBytes := fun _ => List.replicate (parseNat infoLen2) 0 })
   | _ => none
 
 def showResp : Option WResp → String
